@@ -63,9 +63,14 @@ MsgStep(e) ==
                   \/ (a.res = "ok" /\ a.L = -1 /\ a.y \notin {p[1] : p \in exp})
                   \/ (a.res \in {"noaddr", "nopool"} /\ <<0, -1>> \notin exp)
         hc == HeldC(pre, a)
+        \* C18e: what was acknowledged is what is stored -- after an ACK (or a grant at pool level) the row of the
+        \* address names the client it was acknowledged to and has not run out yet; this row is what a restart finds
+        acked == a.res = "ok" /\ a.y \in DOMAIN post /\ (e.lvl = "pool" \/ a.kind = "request")
+        lost == acked /\ ~(Has(post[a.y]) /\ post[a.y].c = a.c /\ post[a.y].e >= 0)
     IN /\ db' = pabs
        /\ told' = IF a.res = "ok" /\ a.y \in DOMAIN told THEN [told EXCEPT ![a.y] = a.c] ELSE told
        /\ viol' = viol \cup {<<p, l, shp[p]>> : p \in {q \in Enforce \cap DOMAIN bad : bad[q]}}
+                       \cup (IF lost /\ "C18" \in Enforce THEN {<<"C18", l, "acknowledgedLeaseNotInStore">>} ELSE {})
        /\ drift' = IF drifts THEN drift \cup {l} ELSE drift
        /\ stats' = Bump(Bump(Bump(Bump(Bump(Bump(Bump(Bump(Bump(Bump(stats,
                      "msgs", TRUE), "ok", a.res = "ok"), "noaddr", a.res = "noaddr"),
